@@ -13,8 +13,12 @@ def is_version(value):
     """Validate that value is a valid version string."""
     try:
         value = str(value)
-        if AwesomeVersion("1.4") > AwesomeVersion(value):
+        version = AwesomeVersion(value)
+        if AwesomeVersion("1.4") > version:
             raise ValueError()
+        # Make sure every section can be compared as an integer later on.
+        for idx in range(version.sections):
+            version.section(idx)
         return value
     except (AwesomeVersionException, TypeError, ValueError) as exc:
         raise vol.Invalid(f"{value} is not a valid version specifier") from exc
